@@ -82,7 +82,7 @@ fn check_codec_inner(case: &CodecCase) -> CaseResult {
         match m {
             Method::Borrow => encoder.encode(piece),
             Method::Copy => encoder.encode_copy(piece),
-            Method::Anchored => {
+            Method::Anchored | Method::AnchoredForeign => {
                 let mut src = *piece;
                 let a = encoder.read_n(&mut src, piece.len(), NonZeroUsize::new(2).unwrap()).map_err(|e| Fail::new("read_n:error", e.to_string()))?;
                 encoder.encode_anchored(a);
@@ -140,7 +140,7 @@ fn check_codec_inner(case: &CodecCase) -> CaseResult {
         let r = match m {
             Method::Borrow => decoder.decode(piece).map_err(|e| e.to_string()),
             Method::Copy => decoder.decode_copy(piece).map_err(|e| e.to_string()),
-            Method::Anchored => {
+            Method::Anchored | Method::AnchoredForeign => {
                 let mut src = *piece;
                 let a = decoder.read_n(&mut src, piece.len(), NonZeroUsize::new(2).unwrap()).map_err(|e| Fail::new("read_n:error", e.to_string()))?;
                 decoder.decode_anchored(a).map_err(|e| e.to_string())
@@ -237,7 +237,7 @@ fn check_decoder_error_inner(case: &DecErrCase) -> CaseResult {
         let r = match m {
             Method::Borrow => decoder.decode(piece).map_err(|e| e.to_string()),
             Method::Copy => decoder.decode_copy(piece).map_err(|e| e.to_string()),
-            Method::Anchored => {
+            Method::Anchored | Method::AnchoredForeign => {
                 let mut src = *piece;
                 let a = if case.foreign_arena {
                     foreign.read_n(&mut src, piece.len(), NonZeroUsize::new(2).unwrap())
